@@ -144,7 +144,7 @@ def write_current():
     flags, n2 = scan_flags()
     prim, n3 = scan_data()
     lines = ["(* GENERATED on every run by vlib/srcscan.py from the source text of /repo. Do not edit. *)",
-             "From Truc.Model Require Import VecConv.", ""]
+             "From Truc.Model Require VecConv Exec.", "Import VecConv.", ""]
     for n in n1 + n2 + n3:
         lines.append("(* note: %s *)" % n.replace("*)", "* )"))
     lines.append("Definition vec_flags : flags := mkFlags %s %s %s %s %s." % tuple(
@@ -156,6 +156,11 @@ def write_current():
     for name, (o, a) in prim.items():
         lines.append("Definition prim_%s : origin * access := (%s, %s)." % (
             name, o if o != "Unknown" else "UnknownOrigin", a if a != "Unknown" else "UnknownAccess"))
+    w_o, w_a = prim.get("write", ("Unknown", "Unknown"))
+    gm_o, _ = prim.get("get_mut", ("Unknown", "Unknown"))
+    lines.append("(* the facts of data.rs as the abstract machine reads them *)")
+    lines.append("Definition exec_rt : Exec.runtime := Exec.mkRt %s %s %s." % (
+        coq_bool(w_a != "Unaligned"), coq_bool(w_o == "Unique"), coq_bool(gm_o == "Unique")))
     text = "\n".join(lines) + "\n"
     p = os.path.join(d, "Runtime.v")
     if not os.path.exists(p) or open(p).read() != text:
